@@ -3,6 +3,7 @@ CONSTANTS
   OwnChans = {1, 2}
   Unknown = {9}
   ASBad = {"none", "nsig", "bsig", "swap", "other"}
+  RCBad = {"none", "nsig", "bsig"}
   MaxLen = 8
 INVARIANTS PDump
 CHECK_DEADLOCK FALSE
